@@ -24,6 +24,9 @@ mod memory_accessor;
 mod test_runner;
 /// Miscellaneous utility methods
 mod utils;
+/// Verification probe commands for the unit test runner, only compiled with `--cfg mos_verif`
+#[cfg(mos_verif)]
+mod verif_c18;
 /// Verification probe, only compiled with `--cfg mos_verif`
 #[cfg(mos_verif)]
 mod verif_probe;
